@@ -141,3 +141,20 @@ proof! {
         }
     }
 }
+
+
+proof! {
+    //@ props=C14,C03 tier=quick bounds=V7(FieldAdded(t,5)+FieldMadeTransient(t),#[transient(3)]):decoding-version-0-data-sets-t-to-the-declared-transient-default cap=900
+    fn c14_transient_default_beats_history() unwind(6) {
+        let mut data: [u8; 2] = sym::bytes();
+        data[0] = 0;
+        match desert_core::deserialize::<V7>(&data) {
+            Ok(v) => {
+                assert!(v.a == data[1]);
+                assert!(v.t == 3, "a transient field must decode to its declared default, whatever earlier steps touched it");
+                cover!(true);
+            }
+            Err(e) => { std::mem::forget(e); assert!(false); }
+        }
+    }
+}
